@@ -425,11 +425,9 @@ var removeGate = syncutil.NewGate(20) // arbitrary
 
 // RemoveBlobs removes the blobs from index and pads data with zero bytes
 func (s *storage) RemoveBlobs(ctx context.Context, blobs []blob.Ref) error {
-	batch := s.index.BeginBatch()
 	var wg syncutil.Group
 	for _, br := range blobs {
 		removeGate.Start()
-		batch.Delete(br.String())
 		wg.Go(func() error {
 			defer removeGate.Done()
 			if err := s.delete(br); err != nil && !errors.Is(err, os.ErrNotExist) {
@@ -439,6 +437,13 @@ func (s *storage) RemoveBlobs(ctx context.Context, blobs []blob.Ref) error {
 		})
 	}
 	err1 := wg.Err()
+	// The batch is only begun now: s.delete reads the index, and an
+	// index that serializes its users (sqlite) does not serve a read
+	// while a batch is open.
+	batch := s.index.BeginBatch()
+	for _, br := range blobs {
+		batch.Delete(br.String())
+	}
 	err2 := s.index.CommitBatch(batch)
 	if err1 != nil {
 		return err1
